@@ -114,7 +114,14 @@ def campaign(c):
                 run_call(c, f, mk({a['name']: REPS[ty]}), 'type-grid')
             for v in BOUND.get(t, []):
                 run_call(c, f, mk({a['name']: v}), 'boundary')
-            if a['kind'] == 'pos': run_call(c, f, mk(drop=a['name']), 'missing')
+            if a['kind'] == 'pos':
+                run_call(c, f, mk(drop=a['name']), 'missing')
+                # a mandatory parameter left out while optional ones are supplied by name (as many, or more, than are missing)
+                opts = [(o['name'], REPS.get(decl_type(o)[0], 'nil')) for o in f['args'] if o['kind'] != 'pos']
+                for cnt in sorted(set([1, 2, len(opts)])):
+                    if 0 < cnt <= len(opts):
+                        run_call(c, f, mk(dict(opts[:cnt]), drop=a['name']), 'missing+named')
+                        run_call(c, f, mk(dict(opts[-cnt:]), drop=a['name']), 'missing+named')
         for ty in ALLT:
             run_call(c, f, mk(extra=['-=' + REPS[ty]]), 'extra')
             run_call(c, f, mk(extra=['-=' + REPS[ty], '-=' + REPS[ty], 'bogus=' + REPS[ty]]), 'extra2')
